@@ -28,6 +28,10 @@ class HarnessError(Exception):
     """The machinery itself is broken (exit status 2, never a VIOLATION)."""
 
 
+class Inconclusive(Exception):
+    """A case hit the time budget: counted, never a violation."""
+
+
 def digest(obj):
     if not isinstance(obj, bytes):
         obj = json.dumps(obj, sort_keys=True, default=repr).encode()
@@ -298,7 +302,11 @@ def hyp_search(ctx, strategy, check, examples, label, max_buckets=4, shrink=True
 
         def body(value):
             state["n"] += 1
-            res = check(value)
+            try:
+                res = check(value)
+            except Inconclusive as ex:
+                ctx.exclude("inconclusive:" + str(ex)[:40])
+                return
             if res is None:
                 return
             sig = res[0]
